@@ -515,6 +515,35 @@ def _bounds_test(F, body, leak_blocks):
     return good, detail
 
 
+def _not_when_command_is(F, m, fl, variant):
+    """blocks of `m` that cannot run when the CLI command is `variant`: everything reachable only through an edge of a
+    switch on the discriminant of a `Commands` place whose value is another variant"""
+    adt = F.adts.get('Commands')
+    if adt is None:
+        return set()
+    want = next((v['discr'] for v in adt['variants'] if v['name'] == variant), None)
+    if want is None:
+        return set()
+    out = set()
+    for bi in fl.cfg.reachable():
+        t = m.blocks[bi]['term']
+        if t['k'] != 'switch' or t['on']['k'] == 'const':
+            continue
+        for st in m.blocks[bi]['stmts']:
+            rv = st['rv']
+            if st['dst']['l'] == t['on']['p']['l'] and rv['k'] == 'discr':
+                pty = rv['p']['proj'][-1].get('ty') if rv['p']['proj'] and isinstance(rv['p']['proj'][-1], dict) else m.local_ty(rv['p']['l'])
+                if (pty or '').replace('&', '').strip() != 'Commands':
+                    continue
+                listed = [tv for tv, _ in t['targets']]
+                for tv, tb in t['targets']:
+                    if tv != want:
+                        out |= fl.only_through({(bi, tb, tv)})
+                if want in listed:
+                    out |= fl.only_through({(bi, t['otherwise'], 'otherwise')})
+    return out
+
+
 def check_validate(ctx, F):
     b = F.body('delta::Delta::validate')
     if b is None:
@@ -639,11 +668,39 @@ def check_cli(ctx, F):
                         succ_blocks.append(bi)
                     if o['k'] == 'const' and 'FAILURE' in o.get('dbg', ''):
                         fail_blocks.append(bi)
-        if succ_blocks and fail_blocks and all(fl.cfg.edges_guard(ok_e, sb) for sb in succ_blocks if fl.cfg.can_reach(cb, sb)):
+        if succ_blocks and fail_blocks:
             reach_err = set()
             for (s, t, lab) in err_e:
                 reach_err |= fl.cfg.reach(t)
-            if not (set(succ_blocks) & reach_err):
+            stray = {sb for sb in succ_blocks if fl.cfg.can_reach(cb, sb) and not fl.cfg.edges_guard(ok_e, sb)} | (set(succ_blocks) & reach_err)
+            if not stray:
                 good = True
+            else:
+                # an error of ANOTHER subcommand may be forgiven (`serve` ending because its peer hung up): what matters here is
+                # `copia patch`.  Take the view of the executions on which the command is Patch - every block behind an edge
+                # of a test of the command's discriminant that excludes Patch cannot have run - and ask whether the tests
+                # in front of the SUCCESS can still come out that way.
+                excl = _not_when_command_is(F, m, fl, 'Patch')
+                if excl:
+                    still = []
+                    for sb in sorted(stray):
+                        excused = False
+                        for wb in fl.cfg.reachable():
+                            wt = m.blocks[wb]['term']
+                            if wt['k'] != 'switch' or wt['on']['k'] == 'const' or wt['on']['p']['proj'] or m.local_ty(wt['on']['p']['l']) != 'bool':
+                                continue
+                            for val in (0, 1):
+                                tgt = dict((tv, tb) for tv, tb in wt['targets']).get(val, wt['otherwise'])
+                                lab = val if val in [tv for tv, _ in wt['targets']] else 'otherwise'
+                                if not fl.cfg.edges_guard({(wb, tgt, lab)}, sb):
+                                    continue
+                                with fl.restricted(excl):
+                                    os_ = [o for o in fl.origins(wt['on']) if o.kind != 'comb']
+                                if os_ and all(o.kind == 'const' and o.key in (0, 1, True, False) and int(bool(o.key)) != val for o in os_):
+                                    excused = True       # on a `patch` run this test cannot take the edge that leads to SUCCESS
+                        if not excused:
+                            still.append(sb)
+                    if not still:
+                        good = True
     ctx.check(good, 'C05.R7', 'main:Err->FAILURE', 'ExitCode::SUCCESS only on the Ok edge of run(); Err edge cannot reach it',
               'main can exit with SUCCESS although run() returned Err', loc(m, m.lo))
